@@ -268,6 +268,9 @@ TCrash ==
   /\ IsEvent("crash")
   /\ UNCHANGED <<nodeOf, saved, everRAA, projB>>
   /\ fw' = [fw EXCEPT !.crashed = @ \cup {R.node},
+                       \* (a payment the restored manager has never heard of is no longer this node's to report -- also
+                       \*  not after a later restart from a manager written in between)
+                       !.pays = {q \in @ : ~(q.payer = R.node /\ q.snap > R.mgr)},
                        \* (what the user was shown survives a clean reload; an older manager may not know it)
                        !.claimable = IF R.reload THEN [x \in DOMAIN @ |-> IF x[1] = R.node THEN [@[x] EXCEPT !.reloaded = TRUE] ELSE @[x]]
                                      ELSE [x \in {y \in DOMAIN @ : y[1] # R.node} |-> @[x]],
